@@ -47,8 +47,12 @@ func configImmutable(c *Ctx, id string) {
 				}
 				n++
 				o := w.Origin(x.Addr)
-				if strings.HasSuffix(fname(rootFn(fn)), "stream.stream).Open") && strings.HasSuffix(o, ".RollbackMitigation.Disabled") && w.Origin(x.Val) == "const(true)" {
-					return // frozen exception: ephemeral bucket ⇒ nothing to persist ⇒ the gate must not wait
+				if fn.Pkg != nil && strings.HasSuffix(fn.Pkg.Pkg.Path(), "/stream") && strings.HasSuffix(o, ".RollbackMitigation.Disabled") && w.Origin(x.Val) == "const(true)" &&
+					guardedBy(in.Block(), true, func(v ssa.Value) bool {
+						call, ok := v.(*ssa.Call)
+						return ok && call.Common().StaticCallee() != nil && call.Common().StaticCallee().Name() == "IsEphemeral"
+					}) {
+					return // frozen exception: ephemeral bucket ⇒ nothing to persist ⇒ the gate must not wait (C07.R12 decides its exact condition)
 				}
 				bad = append(bad, fname(fn)+": "+o+" ← "+w.Origin(x.Val)+" @"+w.pos(in.Pos()))
 			case *ssa.MapUpdate:
@@ -581,14 +585,41 @@ func gateSourceAgrees(c *Ctx, id string) {
 		return
 	}
 	var start, flip ssa.Instruction
-	allInstrs(open, func(in ssa.Instruction) {
-		if cc := callOf(in); cc != nil && isInvokeOf(cc, "RollbackMitigation", "Start") {
-			start = in
+	// Open with the helpers it calls synchronously (the block may live in a method of its own)
+	unit := []*ssa.Function{open}
+	for f := range w.syncCallees(open, 2, false) {
+		if f != open && f.Pkg == open.Pkg && f.Signature.Recv() != nil && recvTypeName(f.Signature.Recv().Type()) == "stream" {
+			unit = append(unit, f)
 		}
-		if f, _, val := flagWrite(in); f == gateFlag && w.Origin(val) == "const(true)" {
-			flip = in
+	}
+	for _, f := range unit {
+		allInstrs(f, func(in ssa.Instruction) {
+			if cc := callOf(in); cc != nil && isInvokeOf(cc, "RollbackMitigation", "Start") {
+				start = in
+			}
+			if fl, _, val := flagWrite(in); fl == gateFlag && w.Origin(val) == "const(true)" {
+				flip = in
+			}
+		})
+	}
+	baseCond := cond
+	cond = func(in ssa.Instruction) (string, string, []string) {
+		d, e, o := baseCond(in)
+		if in.Parent() != open {
+			// conditions at the helper's call site in Open count as well
+			for _, cs := range callsIn(open, in.Parent()) {
+				d2, e2, o2 := baseCond(cs)
+				if d == "?" {
+					d = d2
+				}
+				if e == "?" {
+					e = e2
+				}
+				o = append(o, o2...)
+			}
 		}
-	})
+		return d, e, o
+	}
 	if start == nil {
 		c.Fail(id, "gate-source:start", open.Pos(), "Open never starts the rollback-mitigation component")
 	} else {
